@@ -50,6 +50,7 @@ type Contract struct {
 	Assigns       []ast.Expr
 	AssignsAll    bool
 	Allocates     bool
+	AllocTypes    []ast.Expr // typed `allocates T, []U`: only objects of these types / backing arrays of these element types are allocated
 	Loops         map[int]*LoopSpec
 	Results       []string
 	Params        []string // for externs
@@ -329,6 +330,15 @@ func (c *Ctx) parseContracts(p *packages.Package) error {
 						lastClause = nil
 					case "allocates":
 						cur.Allocates = true
+						if strings.TrimSpace(rest) != "" {
+							for _, part := range splitTop(rest, ',') {
+								x, err := parser.ParseExpr(strings.TrimSpace(part))
+								if err != nil {
+									return fmt.Errorf("%s: allocates %q: %v", where, part, err)
+								}
+								cur.AllocTypes = append(cur.AllocTypes, x)
+							}
+						}
 					case "loop":
 						if len(fields) < 3 {
 							return fmt.Errorf("%s: bad loop clause", where)
